@@ -136,7 +136,10 @@ func TestVerifReplayGetData(t *testing.T) {
 		"two-key list, both keys":                 {{Elem: []*sdcpb.PathElem{{Name: "doublekey", Key: map[string]string{"key1": "a", "key2": "b"}}}}},
 		"two-key list, only the second key (= b)": {{Elem: []*sdcpb.PathElem{{Name: "doublekey", Key: map[string]string{"key2": "b"}}}}},
 		"unknown path":                            {{Elem: []*sdcpb.PathElem{{Name: "nosuchthing"}}}},
+		"an entry in the middle of the stream holds bytes that are no value": {{Elem: []*sdcpb.PathElem{{Name: "interface"}}}},
 	}
+	// (only for the request above) an entry between the healthy ones whose stored bytes do not decode
+	broken := cache.NewUpdate([]string{"interface", "ethernet-1/10", "description"}, []byte{0xff, 0xff, 0xff}, 0, "", 0)
 	n := 0
 	for rname, paths := range requests {
 		for _, enc := range []sdcpb.Encoding{sdcpb.Encoding_STRING, sdcpb.Encoding_PROTO, sdcpb.Encoding_JSON, sdcpb.Encoding_JSON_IETF} {
@@ -176,7 +179,11 @@ func TestVerifReplayGetData(t *testing.T) {
 					}
 					if opts.Store == cachepb.Store_CONFIG {
 						seen := map[string]bool{}
-						for _, u := range stored {
+						src := stored
+						if strings.HasPrefix(rname, "an entry in the middle") {
+							src = append(append(append([]*cache.Update{}, stored[:3]...), broken), stored[4:]...)
+						}
+						for _, u := range src {
 							for _, p := range ps {
 								k := strings.Join(u.GetPath(), "\x00")
 								if vrgCovers(p, u.GetPath()) && !seen[k] {
@@ -246,6 +253,14 @@ func TestVerifReplayGetData(t *testing.T) {
 			in := fmt.Sprintf("request=%s,encoding=%s", rname, enc)
 			reader := map[sdcpb.Encoding]string{sdcpb.Encoding_STRING: "(*datastore.Datastore).handleGetDataUpdatesSTRING", sdcpb.Encoding_PROTO: "(*datastore.Datastore).handleGetDataUpdatesPROTO",
 				sdcpb.Encoding_JSON: "(*datastore.Datastore).handleGetDataUpdatesJSON", sdcpb.Encoding_JSON_IETF: "(*datastore.Datastore).handleGetDataUpdatesJSON"}[enc]
+			if strings.HasPrefix(rname, "an entry in the middle") {
+				// a request that cannot be answered in full fails, it does not pass for a shorter answer
+				if err == nil {
+					fmt.Printf("REPLAY-FAIL fn=%s clause=requestedPaths input=%s why=no error, %d leaves returned although one stored entry cannot be read\n", fn, in, len(got))
+					fmt.Printf("REPLAY-FAIL fn=%s clause=success_answers_every_stored_update input=%s why=no error, %d leaves returned although one stored entry cannot be read\n", reader, in, len(got))
+				}
+				continue
+			}
 			if rname == "unknown path" {
 				if err == nil || len(got) > 0 {
 					fmt.Printf("REPLAY-FAIL fn=%s clause=invalid_path_is_refused input=%s why=err=%v, %d leaves returned\n", fn, in, err, len(got))
